@@ -254,6 +254,102 @@ pub fn growth_probe(mut f: impl FnMut(usize)) -> (Vec<(usize, f64)>, bool) {
     (times, false)
 }
 
+
+/// A program with one literal slot in every position of the language that takes a literal; `@H@` hex,
+/// `@N@` number, `@S@` string, `@R@` UTxO reference.
+const LITERAL_TEMPLATE: &str = r#"party A;
+policy P = @H@;
+policy Q { hash: @H@, script: @H@, }
+asset T = @H@.@H@;
+asset U = @H@.@S@;
+type R { f: Bytes, g: Int, }
+tx t(p: Int, b: Bytes) {
+  input s { from: A, min_amount: Ada(@N@), ref: @R@, redeemer: @H@, }
+  reference r { ref: @R@, }
+  output { to: A, amount: Ada(@N@) + AnyAsset(@H@, @H@, @N@) + T(@N@), datum: R { f: @H@, g: @N@, }, }
+  output { to: @S@, amount: Ada(p), datum: [@H@, @S@, @N@], }
+  mint { amount: T(@N@), redeemer: @H@, }
+  burn { amount: U(@N@), redeemer: @N@, }
+  validity { since_slot: @N@, until_slot: @N@, }
+  signers { @H@, A, }
+  metadata { @N@: @H@, @N@: @S@, @N@: @N@, }
+  collateral { from: A, min_amount: Ada(@N@), }
+  cardano::withdrawal { from: A, amount: @N@, redeemer: @H@, }
+  cardano::plutus_witness { version: @N@, script: @H@, }
+  cardano::treasury_donation { coin: @N@, }
+}
+"#;
+
+const BENIGN: [(&str, &str); 4] = [("@H@", "0xabcd"), ("@N@", "7"), ("@S@", "\"txt\""), ("@R@", "0x00000000000000000000000000000000000000000000000000000000000000aa#0")];
+
+fn extreme_literals(kind: &str) -> Vec<String> {
+    match kind {
+        "@H@" => vec![
+            "0x".into(),
+            "0xa".into(),
+            "0xabc".into(),
+            format!("0x{}", "ab".repeat(64)),
+            format!("0x{}c", "ab".repeat(64)),
+            format!("0x{}", "ab".repeat(65)),
+            format!("0x{}c", "ab".repeat(65)),
+            format!("0x{}", "ab".repeat(100)),
+            format!("0x{}c", "ab".repeat(1000)),
+            format!("0x{}", "ab".repeat(2048)),
+            "0xABCDEFabcdef".into(),
+        ],
+        "@N@" => vec!["0".into(), "9223372036854775807".into(), "9223372036854775808".into(), "18446744073709551616".into(), "9".repeat(19), "1".repeat(40), "0".repeat(50), "-9223372036854775809".into(), "00007".into()],
+        "@S@" => vec!["\"\"".into(), format!("\"{}\"", "a".repeat(64)), format!("\"{}\"", "a".repeat(65)), format!("\"{}\"", "\u{20ac}".repeat(22)), format!("\"{}\"", "a".repeat(5000)), "\"0xabc\"".into(), "\"\u{feff}\"".into()],
+        _ => vec![
+            "0xabc#0".into(),
+            "0xaa#0".into(),
+            format!("0x{}#18446744073709551615", "ab".repeat(32)),
+            format!("0x{}#18446744073709551616", "ab".repeat(32)),
+            format!("0x{}#0", "ab".repeat(33)),
+            format!("0x{}c#1", "ab".repeat(32)),
+            format!("0x{}#{}", "ab".repeat(32), "9".repeat(30)),
+        ],
+    }
+}
+
+/// (slot kind, byte offset) of every literal slot of the template, in order
+fn literal_slots() -> Vec<(&'static str, usize)> {
+    let mut out = vec![];
+    for (k, _) in BENIGN {
+        let mut from = 0;
+        while let Some(i) = LITERAL_TEMPLATE[from..].find(k) {
+            out.push((k, from + i));
+            from += i + k.len();
+        }
+    }
+    out.sort_by_key(|x| x.1);
+    out
+}
+
+/// The template with slot `slot` holding `lit` and every other slot its benign literal.
+fn fill_template(slot: usize, lit: &str) -> String {
+    let slots = literal_slots();
+    let mut out = String::new();
+    let mut pos = 0;
+    for (n, (k, at)) in slots.iter().enumerate() {
+        out.push_str(&LITERAL_TEMPLATE[pos..*at]);
+        out.push_str(if n == slot { lit } else { BENIGN.iter().find(|b| b.0 == *k).unwrap().1 });
+        pos = at + k.len();
+    }
+    out.push_str(&LITERAL_TEMPLATE[pos..]);
+    out
+}
+
+/// number of (slot, extreme literal) pairs
+fn literal_cases() -> Vec<(usize, String)> {
+    let mut out = vec![];
+    for (n, (k, _)) in literal_slots().iter().enumerate() {
+        for l in extreme_literals(k) {
+            out.push((n, l));
+        }
+    }
+    out
+}
+
 impl C12 {
     fn judge(&self, ctx: &mut Ctx, src: &str, origin: &str, construct: &str) {
         ctx.eval();
@@ -285,7 +381,7 @@ impl Property for C12 {
         "C12"
     }
     fn rule(&self) -> String {
-        "growth: 8 families of programs whose length grows linearly with n (chains of aliases / records / locals / inputs that name the previous definition twice, many outputs reading one input, many txs) are parsed and analysed for n = 4, 6, .. 40 and the thread CPU time must not triple twice in a row per step of 2; grammar: random expansions (depth <= 12, implicit whitespace / comments between tokens of non-atomic rules) of tx3.pest itself, read with pest_meta at run time, so every rule the grammar accepts is exercised; mutation: 12 token-level mutators (delete, duplicate, swap, splice, numeral / hex stretching, multi-byte insertion, keyword / punctuation replacement, truncation, block duplication, renaming) applied 1..3 times to the example corpus and to generated programs; many-diagnostics: one tx with 21..90 erroneous blocks of ten kinds (undefined names in every position, undefined types, implicit constructors of variants, ill-typed directive fields) in random order; nesting (exhaustive): 36 recursive constructs (incl. constructors nested through a field and closed by a spread, without trailing comma, unclosed) x depth 1..64 (and 4..9 of those depths once more through an unoptimised probe binary on a 2 MiB thread). Oracle: parse_string returns Ok or Err and analyze returns, observed through the panic hook / worker signals / watchdog; termination of the parser is decided on logical steps (pest call limit 2e6 + 5000 per input byte; the valid corpus needs ~5 calls per byte). Non-trivial: the input parses, or fails beyond its first line; distinct = distinct input texts.".into()
+        "growth: 8 families of programs whose length grows linearly with n (chains of aliases / records / locals / inputs that name the previous definition twice, many outputs reading one input, many txs) are parsed and analysed for n = 4, 6, .. 40 and the thread CPU time must not triple twice in a row per step of 2; grammar: random expansions (depth <= 12, implicit whitespace / comments between tokens of non-atomic rules) of tx3.pest itself, read with pest_meta at run time, so every rule the grammar accepts is exercised; mutation: 12 token-level mutators (delete, duplicate, swap, splice, numeral / hex stretching, multi-byte insertion, keyword / punctuation replacement, truncation, block duplication, renaming) applied 1..3 times to the example corpus and to generated programs; literal-positions (exhaustive): a program with a literal in every position that takes one (policy / asset definitions, thresholds, references, redeemers, datum fields, list elements, validity, signers, metadata keys and values, directive fields) x 7..11 extreme literals per kind (empty / odd / 128..4096-digit hex, numerals around 2^63 and 2^64 and of 40..50 digits, empty / 64 / 65 / 5000-byte and multi-byte strings, UTxO references with odd, short, long ids and indices around 2^64), one position at a time; many-diagnostics: one tx with 21..90 erroneous blocks of ten kinds (undefined names in every position, undefined types, implicit constructors of variants, ill-typed directive fields) in random order; nesting (exhaustive): 36 recursive constructs (incl. constructors nested through a field and closed by a spread, without trailing comma, unclosed) x depth 1..64 (and 4..9 of those depths once more through an unoptimised probe binary on a 2 MiB thread). Oracle: parse_string returns Ok or Err and analyze returns, observed through the panic hook / worker signals / watchdog; termination of the parser is decided on logical steps (pest call limit 2e6 + 5000 per input byte; the valid corpus needs ~5 calls per byte). Non-trivial: the input parses, or fails beyond its first line; distinct = distinct input texts.".into()
     }
     fn assumptions(&self) -> Vec<String> {
         vec![
@@ -327,6 +423,7 @@ impl Property for C12 {
                 Phase::new("grammar", 12_000, Profile::Checked),
                 Phase::new("mutation", 25_000, Profile::Checked),
                 Phase::new("many-diagnostics", 400, Profile::Checked),
+                Phase::new("literal-positions", literal_cases().len() as u64, Profile::Checked).exhaustive(),
             ],
             Tier::Thorough => vec![
                 Phase::new("growth", CHAINS.len() as u64, Profile::Release).exhaustive().budget(120_000),
@@ -335,6 +432,7 @@ impl Property for C12 {
                 Phase::new("mutation", 1_200_000, Profile::Checked),
                 Phase::new("mutation-release", 300_000, Profile::Release),
                 Phase::new("many-diagnostics", 20_000, Profile::Checked),
+                Phase::new("literal-positions", literal_cases().len() as u64, Profile::Checked).exhaustive(),
             ],
         }
     }
@@ -414,6 +512,20 @@ impl Property for C12 {
                 ctx.nontrivial(fnv64(src.as_bytes()));
                 if idx % 64 == 9 {
                     ctx.sample(|| json!({"construct": n.name, "depth": d, "source": src}));
+                }
+            }
+            "literal-positions" => {
+                // one extreme literal (over-long, odd-length, out of range, empty, multi-byte) in one literal
+                // position of a program that uses every position, all other positions benign
+                let cases = literal_cases();
+                let Some((slot, lit)) = cases.get(idx as usize) else { return };
+                let src = fill_template(*slot, lit);
+                ctx.count("feature/literal-positions");
+                let kind = literal_slots()[*slot].0;
+                self.judge(ctx, &src, "literal-positions", &format!("literal-position:{kind}"));
+                ctx.nontrivial(fnv64(src.as_bytes()));
+                if idx % 97 == 0 {
+                    ctx.sample(|| json!({"origin": "literal-positions", "slot": slot, "literal_prefix": lit.chars().take(40).collect::<String>(), "literal_len": lit.len()}));
                 }
             }
             "many-diagnostics" => {
